@@ -346,6 +346,15 @@ func runProgram(r *ev.Run, id string, i int) {
 		enDesc = fmt.Sprintf("set%v", set)
 	}
 	r.SetAdd("core_enabler_kinds", enDesc[:3])
+	// a quarter of the programs can switch every destination off for the duration of a derivation: what
+	// a handler is derived with does not depend on what happens to be enabled at that moment
+	off := false
+	canSwitch := rr.P(1, 4)
+	if canSwitch {
+		inner := coreEn
+		coreEn = zap.LevelEnablerFunc(func(l zapcore.Level) bool { return !off && inner.Enabled(l) })
+		enDesc += "+switch"
+	}
 	core := zapcore.NewCore(zapcore.NewJSONEncoder(encCfg), sink, coreEn)
 	// every second program also feeds a console core (message column only): its context object must be
 	// the same tree
@@ -363,6 +372,13 @@ func runProgram(r *ev.Run, id string, i int) {
 		oc, obsLogs = observer.New(coreEn)
 		core = zapcore.NewTee(core, oc)
 		r.Count("programs_with_observer_core", 1)
+	}
+	if (sinkC != nil || obsLogs != nil) && rr.P(1, 2) {
+		// the destinations sit behind an increase-level core (same enabler: it narrows nothing)
+		if ic, err := zapcore.NewIncreaseLevelCore(core, coreEn); err == nil {
+			core = ic
+			r.Count("programs_over_increase_level(tee)", 1)
+		}
 	}
 	name := rng.Pick(rr, []string{"", "svc", "a.b"})
 	root := &hnode{id: 0, h: zapslog.NewHandler(core, zapslog.WithName(name), zapslog.AddStacktraceAt(slog.Level(100))), parent: -1, how: "root"}
@@ -385,6 +401,11 @@ func runProgram(r *ev.Run, id string, i int) {
 		r.Violate(ev.Violation{Case: id, Class: class, Msg: fmt.Sprintf(f, a...), Witness: map[string]any{"steps": tr}})
 	}
 	derive := func() {
+		if canSwitch && rr.P(1, 3) {
+			off = true
+			defer func() { off = false }()
+			r.Count("derivations_while_every_destination_is_switched_off", 1)
+		}
 		par := nodes[rr.Intn(len(nodes))]
 		n := &hnode{id: len(nodes), ops: append([]op(nil), par.ops...), parent: par.id}
 		if rr.P(1, 2) {
